@@ -132,9 +132,7 @@ class ThermalFluidMaterial:
             1.0 + 12.7 * (f / 8.0) ** 0.5 * (pr ** (2.0 / 3.0) - 1.0)
         )
 
-        turbulent.at[re < self.laminar_cutoff].set(self.laminar_value)
-
-        return turbulent
+        return jnp.where(re < self.laminar_cutoff, self.laminar_value, turbulent)
 
 
 class PolynomialThermalFluidMaterial(ThermalFluidMaterial):
